@@ -237,6 +237,10 @@ class Env:
             # request's last wait has returned races with the request's decision and is exempt from the ordering clause
             m.sched.append((it[2], it[1], (m.request_no if kernel.in_request else -1, kernel.selects_done)))
             self.cbs["sched"](it[2])
+        elif kind == "sched2":
+            # a second, separately created scheduled-event trigger (its own closure)
+            m.sched.append((it[2], it[1], (m.request_no if kernel.in_request else -1, kernel.selects_done)))
+            self.cbs["sched2"](it[2])
         elif kind == "ts_register":
             # another thread (or a signal handler) registers a further thread-safe trigger while the program runs
             self.cbs["ts_new"] = self.inp.threadsafe_event_trigger(self.ts_class)
@@ -338,7 +342,7 @@ def run_scenario(scn, chooser):
             kernel.raw_write(kernel.TTY, scn["typeahead"])
             model.arrived(scn["typeahead"])
         inp.__enter__()
-        env.cbs = {"plain": inp.event_trigger(Tag), "ts": inp.threadsafe_event_trigger(TsTag), "sched": inp.scheduled_event_trigger(Sched)}
+        env.cbs = {"plain": inp.event_trigger(Tag), "ts": inp.threadsafe_event_trigger(TsTag), "sched": inp.scheduled_event_trigger(Sched), "sched2": inp.scheduled_event_trigger(Sched)}
         env.ts_class = TsTag
         keys_out = []
 
@@ -578,6 +582,7 @@ POOL = [
     ("event", "e1"), ("event", "e2"), ("ts", "t1"), ("ts", "t2"), ("ts", "f3"),
     ("sched", "s_soon", T0 + 2.0), ("sched", "s_soon2", T0 + 2.0), ("sched", "s_past", T0 - 1.0), ("sched", "s_late", T0 + 8.0), ("sched", "s_mid", T0 + 3.0),
     ("sigint",), ("bytes", b"a"), ("bytes", b"\x1b[A"), ("unget", b"b"), ("bytes", b"abcdefghijkl"),
+    ("sched2", "s2_early", T0 + 1.0), ("sched2", "s2_past", T0 - 2.0), ("unget", b"\x1b"), ("unget", b"\x1b["),
 ]
 
 
@@ -658,6 +663,10 @@ def family_large(thorough):
             for lead in range(0, len(seq) + 1):
                 units = [b"a"] * lead + [seq, b"x"] * 300
                 yield {"paste_threshold": th, "sigint_event": False, "script": [("bytes", b"".join(units)), ("req", 0), ("req", 0)], "family": "large_burst", "units": units}
+    for ch in ("\U0001f600".encode(), "\u00e9".encode(), "\U00020000".encode()):
+        for lead in range(0, len(ch)):
+            units = [b"a"] * lead + [ch] * (2100 // len(ch))
+            yield {"paste_threshold": 8, "sigint_event": False, "script": [("bytes", b"".join(units)), ("req", 0), ("req", 0)], "family": "large_burst", "units": units}
     # more than 200 000 keypresses in one paste
     units = [b"a", b"b", b"c"] * 67000
     yield {"paste_threshold": 8, "sigint_event": False, "script": [("bytes", b"".join(units)), ("req", 0), ("req", 0)], "family": "large_burst", "units": units}
@@ -677,7 +686,7 @@ def family_lifecycle(thorough):
                 for tail in tails:
                     yield {"paste_threshold": 8, "sigint_event": sig, "dtss": dtss, "typeahead": ta, "script": list(tail), "family": "lifecycle"}
             for mid in (b"x", b"\x1b[B", b"xyzxyzxyzxyz"):
-                for head in ([], [("bytes", b"a"), ("req", 0)], [("bytes", b"ab"), ("req", 0)], [("bytes", b"q")], [("event", "e1")], [("ts", "t1")], [("sigint",)] if sig else [("unget", b"u")]):
+                for head in ([], [("bytes", b"a"), ("req", 0)], [("bytes", b"ab"), ("req", 0)], [("bytes", b"q")], [("bytes", b"a\x1b"), ("req", 0)], [("bytes", b"a\x1b["), ("req", 0)], [("bytes", b"ab\x1bO"), ("req", 0), ("req", 0)], [("event", "e1")], [("ts", "t1")], [("sigint",)] if sig else [("unget", b"u")]):
                     for tail in tails[:3] if not thorough else tails:
                         yield {"paste_threshold": 8, "sigint_event": sig, "dtss": dtss, "script": list(head) + [("reenter", mid)] + list(tail), "family": "lifecycle"}
 
@@ -780,7 +789,7 @@ def timing_independent(scn):
     for it in scn["script"]:
         if it[0] == "req" and it[1] != 0:
             return False
-        if it[0] == "sched" and it[2] >= T0:
+        if it[0] in ("sched", "sched2") and it[2] >= T0:
             return False
         if it[0] in ("ts_register", "ts_fire_new", "sigwinch"):
             return False
@@ -822,7 +831,7 @@ def real_run(scn):
             os.write(master, scn["typeahead"])
             time.sleep(0.03)
         with inp:
-            cbs = {"plain": inp.event_trigger(Tag), "ts": inp.threadsafe_event_trigger(TsTag), "sched": inp.scheduled_event_trigger(Sched)}
+            cbs = {"plain": inp.event_trigger(Tag), "ts": inp.threadsafe_event_trigger(TsTag), "sched": inp.scheduled_event_trigger(Sched), "sched2": inp.scheduled_event_trigger(Sched)}
 
             def request():
                 try:
@@ -880,8 +889,8 @@ def real_run(scn):
                     cbs["plain"](tag=it[1])
                 elif k == "ts":
                     cbs["ts"](tag=it[1])
-                elif k == "sched":
-                    cbs["sched"](time.time() - 1.0)
+                elif k in ("sched", "sched2"):
+                    cbs[k](time.time() - (1.0 if k == "sched" else 2.0))
                 elif k == "sigint":
                     signal.raise_signal(signal.SIGINT)
             if not stopped:
